@@ -101,3 +101,169 @@ class OnS2F13:
 
     def ensures(self, result):
         return reply_ok(result, self._settings._streams_functions.g_req.items, self._equipment_constants, 2, 14)
+
+
+# =============================================================================================== S1F3 / S2F13 for ANY number of requested ids
+# The requested ids are a heap region of decoded id items (any number n >= 1; the empty request "all variables" is the bounded
+# pass's); every entry of the reply is a NEW object of the region of reply entries - created either by the value getter (a
+# call-out: kind 'value', the variable's current value) or by the code itself as the empty item `Array(SV, [])` (kind 'empty').
+from spec.ext import AbsVar  # noqa: E402
+
+IDS = Region("requested_ids", AbsItem, g_value=Int)
+ENTRIES = Region("reply_entries", AbsVar, g_empty=Bool, g_val=Int)
+
+
+@contract("secsgem.gem.status_data_collection_capability:StatusDataCollectionCapability._get_sv_value", "C13", name="SvValueNewAbs")
+class SvValueNewAbs:
+    """ASSUMED (call-out, as SvValueAbs): a new value object holding the variable's current value (ghost g_val)."""
+
+    abstract = True
+    returns_new = ENTRIES
+
+    def ensures(status_variable, result):
+        return (not result.g_empty) and result.g_val == status_variable.g_val
+
+
+@contract("secsgem.gem.equipment_constants_capability:EquipmentConstantsCapability._get_ec_value", "C13", name="EcValueNewAbs")
+class EcValueNewAbs:
+    abstract = True
+    returns_new = ENTRIES
+
+    def ensures(equipment_constant, result):
+        return (not result.g_empty) and result.g_val == equipment_constant.g_val
+
+
+@contract("secsgem.secs.variables.array:Array.__init__", "C13", name="EmptyItemNewAbs")
+class EmptyItemNewAbs:
+    """ASSUMED: `Array(<data item>, [])` builds the empty item E5 prescribes for an unknown id (C01: Array over no children
+    encodes as L[0]); as a reply entry: kind 'empty'."""
+
+    abstract = True
+    creates = ENTRIES
+
+    def requires(value):
+        return len(value) == 0
+
+    def ensures(self):
+        return self.g_empty
+
+
+def native_reply_demo(stream, function):
+    """Native demonstration (replay of the any-count reply contracts): the real handler over real messages, requests of 1, 2, 3,
+    40 and 600 ids mixing known, unknown and repeated ids: one entry per id in request order, value or empty item."""
+    def run(case, name, model):
+        import logging
+        from bounded import C13_api as A
+        logging.disable(logging.CRITICAL)
+        table = A.SV if stream == 1 else A.EC
+        known = [k for k in table if not isinstance(k, str)]
+        failed = []
+        for n in (1, 2, 3, 40, 600):
+            ids = [(known[j % len(known)] if j % 3 != 1 else 900000 + j) for j in range(n)]
+            sess = A.Session()
+            try:
+                got = sess.ask(stream, function, ("L", [A.idtree(i) for i in ids]))
+                if not (isinstance(got, tuple) and got[0] == "L"):
+                    failed.append(f"{n} ids: no list reply ({str(got)[:60]})")
+                    continue
+                items = got[1]
+                if len(items) != n:
+                    failed.append(f"{n} ids requested, {len(items)} entries in the reply")
+                    continue
+                cur = sess.handler.status_variables if stream == 1 else sess.handler.equipment_constants
+                for j, (i, it) in enumerate(zip(ids, items)):
+                    if i in table:
+                        if A.num(it) is None or float(A.num(it)) != float(cur[i].value):
+                            failed.append(f"{n} ids: entry {j} for the known id {i} is {str(it)[:40]}, current value {cur[i].value}")
+                            break
+                    elif it != ("L", []):
+                        failed.append(f"{n} ids: entry {j} for the unknown id {i} is {str(it)[:40]}, expected the empty item")
+                        break
+            finally:
+                sess.close()
+        if not failed:
+            return None
+        return {"status": "confirmed", "failed_clauses": failed[:6], "inputs": {"request_sizes": [1, 2, 3, 40, 600]}}
+    return run
+
+
+def handler_any():
+    return Obj(GemEquipmentHandler,
+               _status_variables=MapOf(StatusVariable, g_val=Int), _equipment_constants=MapOf(EquipmentConstant, g_val=Int),
+               _settings=Obj(Settings, _streams_functions=Obj(_SF, g_req=RegionList(IDS))))
+
+
+def reply_any(result, ids, table, stream, function):
+    v = result.g_value
+    n = len(ids)
+    return {"function": result.g_stream == stream and result.g_function == function,
+            "one-entry-per-requested-id": len(v) == n,
+            "entries-are-distinct-new-objects-in-request-order": forall(0, n, lambda j: key_of(v[j]) == key_of(v[0]) + j),
+            "known-id-current-value": forall(0, n, lambda j: implies(ids[j].g_value in table, lambda: not v[j].g_empty and v[j].g_val == table[ids[j].g_value].g_val)),
+            "unknown-id-empty-item": forall(0, n, lambda j: implies(not (ids[j].g_value in table), lambda: v[j].g_empty))}
+
+
+@contract("secsgem.gem.status_data_collection_capability:StatusDataCollectionCapability._on_s01f03", "C13", name="OnS1F3Any")
+class OnS1F3Any:
+    """S1F4 for ANY number n >= 1 of requested ids: one entry per id, in request order, the variable's current value for a known
+    id, the empty item for an unknown one; repeated ids repeat."""
+
+    cases = None
+    uses = [DecodeIdListAbs, SvValueNewAbs, EmptyItemNewAbs, StreamFunctionAbs13, NewFunctionAbs13]
+    replay = native_reply_demo(1, 3)
+
+    def inputs():
+        return {"self": handler_any(), "_handler": Const(None), "message": Const(None), }
+
+    def requires(self):
+        return len(self._settings._streams_functions.g_req) >= 1
+
+    def raises():
+        return {}
+
+    def ensures(self, result):
+        return reply_any(result, self._settings._streams_functions.g_req, self._status_variables, 1, 4)
+
+    def inv(self, responses, i):
+        ids = self._settings._streams_functions.g_req
+        table = self._status_variables
+        made = allocated(the_region(ENTRIES))
+        return (len(responses) == i
+                and forall(0, i, lambda j: key_of(responses[j]) == made - i + j)
+                and forall(0, i, lambda j: implies(ids[j].g_value in table, lambda: not responses[j].g_empty and responses[j].g_val == table[ids[j].g_value].g_val))
+                and forall(0, i, lambda j: implies(not (ids[j].g_value in table), lambda: responses[j].g_empty)))
+
+    loops = {1: Loop(a=inv, types={"responses": ElemList(ENTRIES)}, modifies=["alloc:reply_entries", "region:reply_entries.g_empty", "region:reply_entries.g_val"])}
+
+
+@contract("secsgem.gem.equipment_constants_capability:EquipmentConstantsCapability._on_s02f13", "C13", name="OnS2F13Any")
+class OnS2F13Any:
+    """S2F14 for ANY number n >= 1 of requested ids: one entry per id, in request order, the constant's current value for a known
+    id, the empty item for an unknown one; repeated ids repeat."""
+
+    cases = None
+    uses = [DecodeIdListAbs, EcValueNewAbs, EmptyItemNewAbs, StreamFunctionAbs13, NewFunctionAbs13]
+    replay = native_reply_demo(2, 13)
+
+    def inputs():
+        return {"self": handler_any(), "_handler": Const(None), "message": Const(None)}
+
+    def requires(self):
+        return len(self._settings._streams_functions.g_req) >= 1
+
+    def raises():
+        return {}
+
+    def ensures(self, result):
+        return reply_any(result, self._settings._streams_functions.g_req, self._equipment_constants, 2, 14)
+
+    def inv(self, responses, i):
+        ids = self._settings._streams_functions.g_req
+        table = self._equipment_constants
+        made = allocated(the_region(ENTRIES))
+        return (len(responses) == i
+                and forall(0, i, lambda j: key_of(responses[j]) == made - i + j)
+                and forall(0, i, lambda j: implies(ids[j].g_value in table, lambda: not responses[j].g_empty and responses[j].g_val == table[ids[j].g_value].g_val))
+                and forall(0, i, lambda j: implies(not (ids[j].g_value in table), lambda: responses[j].g_empty)))
+
+    loops = {1: Loop(a=inv, types={"responses": ElemList(ENTRIES)}, modifies=["alloc:reply_entries", "region:reply_entries.g_empty", "region:reply_entries.g_val"])}
